@@ -1,5 +1,3 @@
-//verif:v2only (root-module instantiation pending: API differences)
-
 package codecprops
 
 // C04 (codec level) - decoder robustness: no byte sequence or untyped Go value makes a reader, a
@@ -88,7 +86,7 @@ func genericOp(r restlicodec.Reader, op string) {
 	case "ReadMap+ReadInterface":
 		_ = r.ReadMap(func(r restlicodec.Reader, k string) error { _, e := r.ReadInterface(); return e })
 	case "ReadRecord+ReadRawBytes":
-		_ = r.ReadRecord(restlicodec.NewRequiredFields().Add("a"), func(r restlicodec.Reader, k string) error { _, e := r.ReadRawBytes(); return e })
+		_ = r.ReadRecord(requiredFieldsOf("a"), func(r restlicodec.Reader, k string) error { _, e := r.ReadRawBytes(); return e })
 	case "RawRecord":
 		var rr restlidata.RawRecord
 		if err := rr.UnmarshalRestLi(r); err == nil {
